@@ -12,6 +12,10 @@ R06.2 who may write the cache slots: only the two get functions (and Default) st
 R06.4 the cache arrays have MAX_K + 1 slots (k ranges over 0 ..= MAX_K).
 R06.5 decidable validates its lookahead limit against MAX_K before the first cache access.
 R06.6 symbol sequences are never cut by count in the equation compilers (hazard rule, expected count 0).
+R06.7 KTuples::k_concat replaces the incomplete tuples of self by their concatenations with other under one condition only: self
+      is not k-complete.  In particular X . {} keeps only the complete tuples of X (the solvers start from empty sets; keeping
+      the incomplete tuples while a neighbour is still empty puts strings into FIRST/FOLLOW that no derivation produces, and
+      the sets only grow).
 R06.3 the fixpoint loops of first_k / follow_k are left only on an equality test of the complete old and new state.
 """
 from ..dataflow import raw_operand_place, raw_place, single_def
@@ -106,6 +110,7 @@ def check(ctx):
     cache_capacity(ctx, facts)
     limit_validated(ctx, facts)
     no_symbol_sequence_truncation(ctx, facts)
+    concat_depends_on_self_only(ctx, facts)
 
 
 # ------------------------------------------------------------------------------------------------------------------ R06.3
@@ -283,3 +288,24 @@ def no_symbol_sequence_truncation(ctx, facts, rule="R06.6"):
     ctx.check(not hits, rule, "no-count-truncation-of-symbol-sequences", "no take/truncate.. on symbol sequences in %d bodies" % n,
               "%d truncation(s) of symbol sequences" % len(hits), nontrivial=False)
     ctx.require_floor(rule, "bodies_scanned", n, 10)
+
+
+
+def concat_depends_on_self_only(ctx, facts):
+    """R06.7 (added after seed C06-c)"""
+    from .common import guards_on_all_paths
+    b = facts.body("parol::analysis::k_tuples::KTuples::k_concat")
+    steps = [c for c in b.calls() if (c.path or "").split("::")[-1] in ("partition", "extend", "update_completeness")]
+    if len(steps) < 2:
+        raise AnchorMissing("KTuples::k_concat: partition / extend steps not found")
+    for c in steps:
+        extra = []
+        for a, k, truth in guards_on_all_paths(b, c.bb):
+            if k and k[0] == "field" and k[1] == 1 and k[2] and k[2][-1] == "k_complete":
+                continue
+            extra.append((a, k[0] if k else "?"))
+        ctx.check(not extra, "R06.7", "KTuples::k_concat|%s|only-guard-is-self.k_complete" % (c.path or "").split("::")[-1],
+                  "the step is guarded by self.k_complete only",
+                  "KTuples::k_concat performs %s under a further condition (%s): the result of X . Y then depends on something "
+                  "other than X's completeness - e.g. X . {} keeps incomplete tuples although nothing can follow them"
+                  % ((c.path or "").split("::")[-1], extra), where(b, c.line))
